@@ -107,10 +107,11 @@ Definition hverdict (c : hcase) : Z :=
   let s0 := C06.init_loads d (jnew (h_spur c) (h_cancun c) (C06.mem (h_pre c))) (h_init c) in
   let tots := expand (h_tot0 c) (h_tots c) in
   let '(bad, known) := oracle (h_cancun c) (h_ops c) (h_obs c) tots (h_sd c) (h_tot0 c) [] in
+  let m := (total d s0 (h_us c) =? h_tot0 c) && model_ok d (h_us c) (s0, []) (h_ops c) (h_obs c) tots in
   if bad then 2
-  else if known then 10
-  else if (total d s0 (h_us c) =? h_tot0 c) && model_ok d (h_us c) (s0, []) (h_ops c) (h_obs c) tots
-       then 0 else 1.
+  (* known class only while the implementation behaves as the model records *)
+  else if known then (if m then 10 else 2)
+  else if m then 0 else 1.
 
 (* ------------------------------------------------------------------ transactions *)
 Fixpoint sum_snd (l : list (Z * Z)) : Z := match l with [] => 0 | (_, b) :: r => b + sum_snd r end.
